@@ -978,6 +978,11 @@ fn column_family(r: &Report, d: &Delims, names: &Names, cfg: &Cfg) {
         "\n".into(),
         (0..8).map(|i| format!("f{i}();\n")).collect(),
         (0..98).map(|i| format!("f{i}();\n")).collect(),
+        // the number column grows to four (thorough: five) digits inside the item
+        (0..998).map(|i| format!("f{i}();\n")).collect(),
+        (0..if r.tier == Tier::Quick { 997 } else { 9998 })
+            .map(|i| format!("f{i}();\n"))
+            .collect(),
     ];
     let counted = explore_seqs(
         &atoms,
@@ -992,6 +997,11 @@ fn column_family(r: &Report, d: &Delims, names: &Names, cfg: &Cfg) {
                 format!("b{pre}{o}\n\n{pre}\n\t{c} あ"),
                 // tabs only on an inner line and behind the end marker
                 format!("{pre}{o}\n\tinner\n{pre}{c}\ttail\n"),
+                // characters a JSON writer has to escape: backslashes, quotes, control
+                // characters, DEL, U+2028; on the marker lines and on an inner line
+                format!(
+                    "{pre}\\ \"q\" {o}/\\d+\\.\\d+/ \"x\\ny\"\n{pre}'C:\\\\tmp'\u{1}\u{8}\u{c}\u{7f}\u{2028}/\n{pre}{c} \\\n"
+                ),
             ];
             for t in &templates {
                 for a in &above {
